@@ -17,3 +17,14 @@ def Nest2(x: int) -> int:
     inner = workflow.add(Chain2(x=x), name="inner")
     c = workflow.add(Add(x=inner.out, k=3), name="c")
     return c.out
+
+
+@workflow.define
+def WfTwoPlanned(x: int, tag: str = "") -> int:
+    """two independent nodes that fail according to the fault plan, and a join"""
+    from .workload import Mul, Planned
+
+    a = workflow.add(Planned(x=x, tag=tag), name="a")
+    b = workflow.add(Planned(x=x + 1, tag=tag), name="b")
+    c = workflow.add(Mul(x=a.out, y=b.out), name="c")
+    return c.out
